@@ -110,18 +110,32 @@ class Violations:
     def __init__(self, ctx, clause: str, limit: int = 5):
         self.ctx, self.clause, self.limit, self.items = ctx, clause, limit, []
 
-    def add(self, size: int, signature: str, message: str, witness: dict, recheck, replay_code: str):
-        self.items.append((size, signature, message, witness, recheck, replay_code))
+    def add(self, size: int, signature: str, message: str, witness: dict, recheck, replay_code: str, history=None):
+        """`recheck()` re-runs the single failing call; `history()` (optional) re-runs the whole sequence of calls the
+        failing one was part of (one item = one sequence in one process): a failure that only shows after earlier calls
+        is a failure all the same - every property here is stated for every history"""
+        self.items.append((size, signature, message, witness, recheck, replay_code, history))
 
     def __len__(self):
         return len(self.items)
 
     def flush(self) -> int:
         reported = 0
-        for size, sig, msg, wit, recheck, code in sorted(self.items, key=lambda x: (x[0], x[1])):
-            if reported >= self.limit:
+        attempts = 0
+        for size, sig, msg, wit, recheck, code, history in sorted(self.items, key=lambda x: (x[0], x[1])):
+            if reported >= self.limit or attempts >= 40:
                 break
-            again = recheck()  # re-run on the real code in this process: None = not reproduced
+            attempts += 1
+            # the sequence first, in a forked child (a state in which none of these calls has happened yet)
+            in_sequence = bc.in_fresh_child(history) if history is not None else None
+            again = recheck()  # the single call, re-run on the real code in this process: None = not reproduced
+            if again is None and in_sequence is not None:
+                again = in_sequence
+                msg += (" - ONLY as part of a sequence: the same call on its own gives the expected result, after "
+                        "the preceding evaluations of the same expression in the same process it does not "
+                        "(history-dependent behaviour)")
+                wit = dict(wit, history="all cases of this expression evaluated one after the other in one process")
+                code += "\n# history-dependent: evaluate ALL cases of this expression one after the other, see witness"
             if again is None:
                 self.ctx.note(f"{self.clause}: failing input {sig} did not reproduce on re-run (not reported)")
                 continue
@@ -166,12 +180,20 @@ def check_trees(ctx, name: str, trees: List[ts.Tree], exhaustive: bool, bound: s
                     r2 = eval_item((item[0], item[1], item[2], item[3], ((rc_word, fc_word),)))[0]
                     g2 = (r2[1], r2[2]) if r2[0] == "ok" else r2
                     return None if g2 == exp else list(g2)
+
+                def history(item=item, rc_word=rc_word, fc_word=fc_word, exp=exp):
+                    res2 = eval_item(item)
+                    for (w1, w2), r2 in zip(item[4], res2):
+                        if (w1, w2) == (rc_word, fc_word):
+                            g2 = (r2[1], r2[2]) if r2[0] == "ok" else r2
+                            return None if g2 == exp else list(g2)
+                    return None
                 viol.add(len(text), f"{text}|{rc_word}|{fc_word}",
                          f"outcome of {text!r} under {dict(zip(rc_keys, rc_word))} is {got}, the compositional "
                          f"semantics gives {exp}",
                          {"expression": "Muss " + text, "rc": dict(zip(rc_keys, rc_word)),
                           "fc": dict(zip(fc_keys, fc_word)), "expected": list(exp), "observed": list(got)},
-                         recheck, replay_snippet(text, rc_keys, fc_keys, hint_keys, rc_word, fc_word))
+                         recheck, replay_snippet(text, rc_keys, fc_keys, hint_keys, rc_word, fc_word), history=history)
     viol.flush()
     ctx.bounded(name, evaluations, distinct,
                 "distinct (expression text, requirement assignment) pairs whose tree has at least one operator",
